@@ -639,8 +639,10 @@ static bool run_scope(Ctx& cx, const Opts& opts) {
     // fixed probe partners for the concatenation clause (board coordinates)
     std::vector<Path> probe_paths;
     if (probes_on) {
-      if (!cx.lines) probe_paths = {{{0, 0}, {80, 0}, {80, 80}, {0, 80}}, {{0, 80}, {80, 80}, {80, 0}, {0, 0}}, {{0, 0}, {80, 40}, {0, 80}}, {{0, 0}, {80, 0}, {80, 80}, {40, 40}, {0, 80}}};
-      else probe_paths = {{{0, 0}, {80, 80}}, {{0, 40}, {40, 40}, {40, 0}}, {{40, 40}, {80, 40}, {40, 60}, {0, 60}}};
+      // (the last two partners are degenerate: a one-point path inside every rectangle and an empty path; alone they yield nothing,
+      //  so in a two-path call they must add nothing either, whatever the other path left behind in the object)
+      if (!cx.lines) probe_paths = {{{0, 0}, {80, 0}, {80, 80}, {0, 80}}, {{0, 80}, {80, 80}, {80, 0}, {0, 0}}, {{0, 0}, {80, 40}, {0, 80}}, {{0, 0}, {80, 0}, {80, 80}, {40, 40}, {0, 80}}, {{40, 40}}, {}};
+      else probe_paths = {{{0, 0}, {80, 80}}, {{0, 40}, {40, 40}, {40, 0}}, {{40, 40}, {80, 40}, {40, 60}, {0, 60}}, {{40, 40}}, {}};
     }
     for (auto& m : mags) for (int n = nmin; n <= nmax && done; ++n) {
       std::vector<P> mb = mag_apply(m, board);
